@@ -177,7 +177,7 @@ const CLASS_ALPHABET: [char; 18] = [
 
 pub fn run_c08(cfg: &Config) -> i32 {
 	let started = Instant::now();
-	let thorough = cfg.tier == Tier::Thorough;
+	let thorough = cfg.tier == Tier::Thorough && !cfg.san;
 	let mut total = Report::new();
 	if let Err(m) = selftest() {
 		total.inconclusive.push(m)
@@ -251,7 +251,7 @@ pub fn run_c08(cfg: &Config) -> i32 {
 		},
 		total,
 		started,
-		1_000_000,
+		if cfg.san { 100_000 } else { 1_000_000 },
 	)
 	.exit
 }
@@ -386,7 +386,7 @@ fn run_print(cfg: &Config, id: &'static str) -> i32 {
 	let n_records = records.len();
 	let records = std::sync::Arc::new(records);
 	let r2 = records.clone();
-	let per_record = if cfg.tier == Tier::Thorough { 24 } else { 3 };
+	let per_record = if cfg.san { 1 } else if cfg.tier == Tier::Thorough { 24 } else { 3 };
 	let rep = parallel(cfg.threads, shards, move |i| {
 		let mut mon = PrintMon {
 			rep: Report::new(),
@@ -503,7 +503,7 @@ fn run_print(cfg: &Config, id: &'static str) -> i32 {
 		},
 		total,
 		started,
-		100_000,
+		if cfg.san { 5_000 } else { 100_000 },
 	)
 	.exit
 }
